@@ -241,7 +241,7 @@ Proof.
   unfold remove_conn, node_auth, node_acct. destruct (get_conn n cid) as [c|]; [|split; reflexivity].
   destruct (find_conn_peer n c) as [p|]; [destruct (p_conn p) as [k|]; [destruct (Nat.eqb k cid)|]|];
     cbn [n_apps set_apps set_tables set_waiting set_peers set_conns];
-    (split; [apply remap_auth|apply remap_acct]);
+    (split; apply (f_equal dedup_z); [apply remap_auth|apply remap_acct]);
     intros [i a]; cbn [snd];
     match goal with |- context [if ?b then _ else _] => destruct b end; repeat split.
 Qed.
@@ -484,7 +484,8 @@ Definition cer_won (n : node) (cid : nat) (m : msg) (h : string) : node * list o
   let '(n1, oel) := close_all (cer_named n cid h) (election_rivals n cid h) R_CLEAN in
   let '(n2, o) := cer_negotiate n1 cid m h in (n2, oel ++ o).
 
-Lemma recv_cer_known n cid m h p :
+Lemma recv_cer_known n cid c m h p :
+  get_conn n cid = Some c -> c_state c = SConnected ->
   m_origin m = Present h -> get_peer n h = Some p ->
   recv_cer n cid m =
   match election_rivals n cid h with
@@ -492,7 +493,7 @@ Lemma recv_cer_known n cid m h p :
   | _ :: _ => if String.ltb h (g_host (n_cfg n)) then cer_won n cid m h else cer_lost n cid m h
   end.
 Proof.
-  intros Ho Hp. unfold recv_cer. rewrite Ho. cbn [pres_get]. rewrite Hp. cbv zeta.
+  intros Hc Hs Ho Hp. unfold recv_cer. rewrite Hc, Hs, Ho. cbn [cstate_eqb negb pres_get]. rewrite Hp. cbv zeta.
   pose proof (election_rivals_upd n cid h _ (idp_cer_name h)) as Hriv. unfold cer_name in Hriv. rewrite Hriv. clear Hriv.
   unfold cer_won, cer_lost, cer_named, cer_name. cbn [n_cfg set_conns].
   destruct (election_rivals n cid h) as [|k ks]; [|destruct (String.ltb h (g_host (n_cfg n))); [|reflexivity]];
@@ -594,7 +595,8 @@ Qed.
    (no other connection towards that peer, or the local name is the greater one): the rivals are closed
    (CLEAN), the CER is answered 2001 and the connection becomes READY *)
 Theorem C06_cer_known n cid c m h p :
-  get_conn n cid = Some c -> m_origin m = Present h -> get_peer n h = Some p ->
+  get_conn n cid = Some c -> c_state c = SConnected ->
+  m_origin m = Present h -> get_peer n h = Some p ->
   (election_rivals n cid h = [] \/ String.ltb h (g_host (n_cfg n)) = true) ->
   (inter_z (node_auth n) (m_auth m) <> [] \/ inter_z (node_acct n) (m_acct m) <> [] \/
    mem_z APP_RELAY (m_auth m) || mem_z APP_RELAY (m_acct m) = true) ->
@@ -604,7 +606,7 @@ Theorem C06_cer_known n cid c m h p :
      List.In (OClose k R_CLEAN) (snd (recv_cer n cid m)) /\ get_conn (fst (recv_cer n cid m)) k = None) /\
   exists c', get_conn (fst (recv_cer n cid m)) cid = Some c' /\ c_state c' = SReady /\ c_host c' = h.
 Proof.
-  intros Hc Ho Hp Hel Hsh. rewrite (recv_cer_known n cid m h p Ho Hp).
+  intros Hc Hs Ho Hp Hel Hsh. rewrite (recv_cer_known n cid c m h p Hc Hs Ho Hp).
   assert (E : match election_rivals n cid h with
               | [] => cer_won n cid m h
               | _ :: _ => if String.ltb h (g_host (n_cfg n)) then cer_won n cid m h else cer_lost n cid m h
@@ -624,22 +626,24 @@ Qed.
 
 (* C06: ... with no other connection towards that peer the answer is the only output *)
 Theorem C06_cer_known_no_rivals n cid c m h p :
-  get_conn n cid = Some c -> m_origin m = Present h -> get_peer n h = Some p ->
+  get_conn n cid = Some c -> c_state c = SConnected ->
+  m_origin m = Present h -> get_peer n h = Some p ->
   election_rivals n cid h = [] ->
   (inter_z (node_auth n) (m_auth m) <> [] \/ inter_z (node_acct n) (m_acct m) <> [] \/
    mem_z APP_RELAY (m_auth m) || mem_z APP_RELAY (m_acct m) = true) ->
   snd (recv_cer n cid m) = [OQueue cid (answer_of m (Some 2001) [])] /\
   exists c', get_conn (fst (recv_cer n cid m)) cid = Some c' /\ c_state c' = SReady /\ c_host c' = h.
 Proof.
-  intros Hc Ho Hp Hel Hsh.
-  destruct (C06_cer_known n cid c m h p Hc Ho Hp (or_introl Hel) Hsh) as [H1 [_ H2]].
+  intros Hc Hs Ho Hp Hel Hsh.
+  destruct (C06_cer_known n cid c m h p Hc Hs Ho Hp (or_introl Hel) Hsh) as [H1 [_ H2]].
   rewrite Hel in H1. split; [exact H1|exact H2].
 Qed.
 
 (* C06: the election is won (there are other connections towards the peer and the local name is the
    greater one): every rival is closed (CLEAN) and removed, then the CER is answered 2001, READY *)
 Theorem C06_cer_election_won n cid c m h p :
-  get_conn n cid = Some c -> m_origin m = Present h -> get_peer n h = Some p ->
+  get_conn n cid = Some c -> c_state c = SConnected ->
+  m_origin m = Present h -> get_peer n h = Some p ->
   election_rivals n cid h <> [] -> String.ltb h (g_host (n_cfg n)) = true ->
   (inter_z (node_auth n) (m_auth m) <> [] \/ inter_z (node_acct n) (m_acct m) <> [] \/
    mem_z APP_RELAY (m_auth m) || mem_z APP_RELAY (m_acct m) = true) ->
@@ -652,8 +656,8 @@ Theorem C06_cer_election_won n cid c m h p :
                               ++ [OQueue cid (answer_of m (Some 2001) [])]) /\
   exists c', get_conn (fst (recv_cer n cid m)) cid = Some c' /\ c_state c' = SReady /\ c_host c' = h.
 Proof.
-  intros Hc Ho Hp Hne Hlt Hsh.
-  destruct (C06_cer_known n cid c m h p Hc Ho Hp (or_intror Hlt) Hsh) as [H1 [H2 H3]].
+  intros Hc Hs Ho Hp Hne Hlt Hsh.
+  destruct (C06_cer_known n cid c m h p Hc Hs Ho Hp (or_intror Hlt) Hsh) as [H1 [H2 H3]].
   split; [exact H2|]. split; [|split; [|exact H3]].
   - exists (snd (close_all n (election_rivals n cid h) R_CLEAN)). split; [exact H1|]. split.
     + destruct (election_rivals n cid h) as [|k ks] eqn:E; [congruence|].
@@ -671,7 +675,8 @@ Qed.
    greater one): the CER is answered 4003, the connection is CLOSING, nothing else changes: in particular no
    connection becomes ready *)
 Theorem C06_cer_election_lost n cid c m h p :
-  get_conn n cid = Some c -> m_origin m = Present h -> get_peer n h = Some p ->
+  get_conn n cid = Some c -> c_state c = SConnected ->
+  m_origin m = Present h -> get_peer n h = Some p ->
   election_rivals n cid h <> [] -> String.ltb h (g_host (n_cfg n)) = false ->
   snd (recv_cer n cid m) = [OQueue cid (answer_of m (Some 4003) [])] /\
   (exists c', get_conn (fst (recv_cer n cid m)) cid = Some c' /\ c_state c' = SClosing) /\
@@ -679,7 +684,7 @@ Theorem C06_cer_election_lost n cid c m h p :
   (forall j cj, get_conn (fst (recv_cer n cid m)) j = Some cj -> is_ready_state (c_state cj) = true ->
      exists cj0, get_conn n j = Some cj0 /\ is_ready_state (c_state cj0) = true).
 Proof.
-  intros Hc Ho Hp Hne Hlt. rewrite (recv_cer_known n cid m h p Ho Hp), Hlt.
+  intros Hc Hs Ho Hp Hne Hlt. rewrite (recv_cer_known n cid c m h p Hc Hs Ho Hp), Hlt.
   destruct (election_rivals n cid h) as [|k ks]; [congruence|]. unfold cer_lost, RC_ELECTION_LOST.
   set (n0 := cer_named n cid h).
   assert (Hc0 : get_conn n0 cid = Some (cer_name h c))
@@ -702,20 +707,30 @@ Qed.
 
 (* C06: a CER of an unknown peer is answered 3010 and the connection is CLOSING *)
 Theorem C06_cer_unknown n cid c m h :
-  get_conn n cid = Some c -> m_origin m = Present h -> get_peer n h = None ->
+  get_conn n cid = Some c -> c_state c = SConnected -> m_origin m = Present h -> get_peer n h = None ->
   snd (recv_cer n cid m) = [OQueue cid (answer_of m (Some 3010) [])] /\
   exists c', get_conn (fst (recv_cer n cid m)) cid = Some c' /\ c_state c' = SClosing.
 Proof.
-  intros Hc Ho Hp. unfold recv_cer. rewrite Ho. cbn [pres_get]. rewrite Hp.
+  intros Hc Hs Ho Hp. unfold recv_cer. rewrite Hc, Hs, Ho. cbn [cstate_eqb negb pres_get]. rewrite Hp.
   split; [apply send_message_out|].
   rewrite send_message_get, Nat.eqb_refl, get_conn_upd by solve_idp.
   rewrite Nat.eqb_refl, Hc. cbn [option_map]. eexists. split; [reflexivity|reflexivity].
 Qed.
 
+(* C06: a CER is ignored unless the connection exists and is CONNECTED (the CER is awaited): a second CER, or a
+   CER on an established, disconnecting or closing connection, changes nothing and is not answered *)
+Theorem C06_cer_ignored_unless_connected n cid m :
+  (forall c, get_conn n cid = Some c -> c_state c <> SConnected) -> recv_cer n cid m = (n, []).
+Proof.
+  intros H. unfold recv_cer. destruct (get_conn n cid) as [c0|]; [|reflexivity].
+  specialize (H c0 eq_refl). destruct (c_state c0); try reflexivity. congruence.
+Qed.
+
 (* C06: a CER of a configured peer with no common application, the election being decided for the new
    connection: the rivals are closed, the CER is answered 5010; the state is unchanged *)
 Theorem C06_cer_no_common n cid c m h p :
-  get_conn n cid = Some c -> m_origin m = Present h -> get_peer n h = Some p ->
+  get_conn n cid = Some c -> c_state c = SConnected ->
+  m_origin m = Present h -> get_peer n h = Some p ->
   (election_rivals n cid h = [] \/ String.ltb h (g_host (n_cfg n)) = true) ->
   inter_z (node_auth n) (m_auth m) = [] -> inter_z (node_acct n) (m_acct m) = [] ->
   mem_z APP_RELAY (m_auth m) || mem_z APP_RELAY (m_acct m) = false ->
@@ -725,7 +740,7 @@ Theorem C06_cer_no_common n cid c m h p :
      List.In (OClose k R_CLEAN) (snd (recv_cer n cid m)) /\ get_conn (fst (recv_cer n cid m)) k = None) /\
   exists c', get_conn (fst (recv_cer n cid m)) cid = Some c' /\ c_state c' = c_state c.
 Proof.
-  intros Hc Ho Hp Hel Ha Hb Hr. rewrite (recv_cer_known n cid m h p Ho Hp).
+  intros Hc Hs Ho Hp Hel Ha Hb Hr. rewrite (recv_cer_known n cid c m h p Hc Hs Ho Hp).
   assert (E : match election_rivals n cid h with
               | [] => cer_won n cid m h
               | _ :: _ => if String.ltb h (g_host (n_cfg n)) then cer_won n cid m h else cer_lost n cid m h
@@ -746,15 +761,16 @@ Qed.
 
 (* C06: ... with no other connection towards that peer the 5010 answer is the only output *)
 Theorem C06_cer_no_common_no_rivals n cid c m h p :
-  get_conn n cid = Some c -> m_origin m = Present h -> get_peer n h = Some p ->
+  get_conn n cid = Some c -> c_state c = SConnected ->
+  m_origin m = Present h -> get_peer n h = Some p ->
   election_rivals n cid h = [] ->
   inter_z (node_auth n) (m_auth m) = [] -> inter_z (node_acct n) (m_acct m) = [] ->
   mem_z APP_RELAY (m_auth m) || mem_z APP_RELAY (m_acct m) = false ->
   snd (recv_cer n cid m) = [OQueue cid (answer_of m (Some 5010) [])] /\
   exists c', get_conn (fst (recv_cer n cid m)) cid = Some c' /\ c_state c' = c_state c.
 Proof.
-  intros Hc Ho Hp Hel Ha Hb Hr.
-  destruct (C06_cer_no_common n cid c m h p Hc Ho Hp (or_introl Hel) Ha Hb Hr) as [H1 [_ H2]].
+  intros Hc Hs Ho Hp Hel Ha Hb Hr.
+  destruct (C06_cer_no_common n cid c m h p Hc Hs Ho Hp (or_introl Hel) Ha Hb Hr) as [H1 [_ H2]].
   rewrite Hel in H1. split; [exact H1|exact H2].
 Qed.
 
@@ -1879,14 +1895,6 @@ Definition ce_ok (pn : list string) (b : bool) (m : msg) : Prop :=
 Definition PA (cid : nat) (pn : list string) (ms : list msg) : nat -> Prop :=
   fun j => j = cid /\ exists m, List.In m ms /\ ce_any pn m.
 
-(* a CER of a configured peer *)
-Definition cer_ok (pn : list string) (m : msg) : Prop :=
-  m_cmd m = CE /\ m_req m = true /\ exists h, m_origin m = Present h /\ List.In h pn.
-Definition RA (cid : nat) (pn : list string) (ms : list msg) : nat -> Prop :=
-  fun j => j = cid /\ exists m, List.In m ms /\ cer_ok pn m.
-Lemma cer_ok_any pn m : cer_ok pn m -> ce_any pn m.
-Proof. intros [H1 [H2 H3]]. split; [exact H1|]. left. auto. Qed.
-
 Lemma ce_ok_any pn b m : ce_ok pn b m -> ce_any pn m.
 Proof. unfold ce_ok, ce_any. intros [H1 H2]. split; [exact H1|]. destruct b; auto. Qed.
 
@@ -1967,7 +1975,11 @@ Proof.
   destruct (route_lookup n a); [|apply ev_send_message].
   match goal with |- context [List.find ?f l] => destruct (List.find f l) as [[[i|] ?]|] end;
     try apply ev_send_message.
-  cbn [fst]. apply ev_same; reflexivity.
+  match goal with |- context [send_message ?x cid ?a] => set (n1 := x); set (ans := a) end.
+  assert (H1 : evolves P Q R n n1) by (apply ev_same; reflexivity).
+  destruct (handler_raises m); [|exact H1].
+  pose proof (ev_send_message P Q R n1 cid ans) as H2. destruct (send_message n1 cid ans) as [n2 o].
+  cbn [fst] in *. exact (ev_trans _ _ _ _ _ _ H1 H2).
 Qed.
 
 Lemma ev_recv_app_answer P Q R n m : evolves P Q R n (fst (recv_app_answer n m)).
@@ -2030,23 +2042,43 @@ Proof.
   eapply ev_trans; [apply ev_cer_named|]. apply ev_closing, HQ.
 Qed.
 
-Lemma ev_recv_cer (Q : nat -> Prop) n cid m :
-  m_cmd m = CE -> m_req m = true -> Q cid ->
-  evolves (PA cid (pnames n) [m]) Q (RA cid (pnames n) [m]) n (fst (recv_cer n cid m)).
+(* an escape from "inert stays inert" that is offered only to a connection that is not inert can be dropped *)
+Lemma ev_drop_R (P Q R : nat -> Prop) n n' cid c0 :
+  get_conn n cid = Some c0 -> inert (c_state c0) = false ->
+  evolves P Q (Qc cid) n n' -> evolves P Q R n n'.
 Proof.
-  intros Hk Hr HQ. destruct (m_origin m) as [| |host] eqn:Ho;
-    try (unfold recv_cer; rewrite Ho; apply ev_refl).
+  intros Hc0 Hi [H1 [H2 H3]]. split; [exact H1|]. split; [exact H2|]. intros j c' Hc'.
+  destruct (H3 j c' Hc') as [Hle|[c [Hc [G1 [G2 [G3 G4]]]]]]; [left; exact Hle|].
+  right. exists c. split; [exact Hc|]. split; [exact G1|]. split; [exact G2|]. split; [exact G3|].
+  intros Hin. destruct (G4 Hin) as [H|Hj]; [left; exact H|]. unfold Qc in Hj. subst j.
+  rewrite Hc0 in Hc. inversion Hc; subst c. congruence.
+Qed.
+
+Lemma cstate_eqb_eq a b : cstate_eqb a b = true -> a = b.
+Proof. destruct a, b; cbn; congruence. Qed.
+
+(* receive_cer acts on a CONNECTED connection only: an inert connection stays inert (no escape R is needed) *)
+Lemma ev_recv_cer (Q R : nat -> Prop) n cid m :
+  m_cmd m = CE -> m_req m = true -> Q cid ->
+  evolves (PA cid (pnames n) [m]) Q R n (fst (recv_cer n cid m)).
+Proof.
+  intros Hk Hr HQ.
+  destruct (get_conn n cid) as [c0|] eqn:Hc0; [|unfold recv_cer; rewrite Hc0; apply ev_refl].
+  destruct (cstate_eqb (c_state c0) SConnected) eqn:Hs0;
+    [|unfold recv_cer; rewrite Hc0, Hs0; apply ev_refl].
+  assert (Hs : c_state c0 = SConnected) by (apply cstate_eqb_eq, Hs0).
+  apply (ev_drop_R _ _ R n _ cid c0 Hc0); [rewrite Hs; reflexivity|].
+  destruct (m_origin m) as [| |host] eqn:Ho;
+    try (unfold recv_cer; rewrite Hc0, Hs0, Ho; apply ev_refl).
   destruct (get_peer n host) as [p|] eqn:Hp.
-  - assert (HR : RA cid (pnames n) [m] cid).
-    { split; [reflexivity|]. exists m. split; [left; reflexivity|]. split; [exact Hk|].
+  - assert (HP : PA cid (pnames n) [m] cid).
+    { split; [reflexivity|]. exists m. split; [left; reflexivity|]. split; [exact Hk|]. left.
       split; [exact Hr|]. exists host. split; [exact Ho|]. eapply get_peer_in, Hp. }
-    assert (HP : PA cid (pnames n) [m] cid).
-    { destruct HR as [_ [m' [Hin Hm']]]. split; [reflexivity|]. exists m'. split; [exact Hin|].
-      apply cer_ok_any, Hm'. }
-    rewrite (recv_cer_known n cid m host p Ho Hp).
+    assert (HR : Qc cid cid) by reflexivity.
+    rewrite (recv_cer_known n cid c0 m host p Hc0 Hs Ho Hp).
     destruct (election_rivals n cid host); [apply ev_cer_won; assumption|].
     destruct (String.ltb host (g_host (n_cfg n))); [apply ev_cer_won; assumption|apply ev_cer_lost, HQ].
-  - unfold recv_cer. rewrite Ho. cbn [pres_get]. rewrite Hp.
+  - unfold recv_cer. rewrite Hc0, Hs0, Ho. cbn [negb pres_get]. rewrite Hp.
     eapply ev_trans; [|apply ev_send_message]. apply ev_closing, HQ.
 Qed.
 
@@ -2084,8 +2116,8 @@ Proof.
       intros H; discriminate H.
 Qed.
 
-Lemma ev_receive_message n cid m :
-  evolves (PA cid (pnames n) [m]) (Qc cid) (RA cid (pnames n) [m]) n (fst (receive_message n cid m)).
+Lemma ev_receive_message (R : nat -> Prop) n cid m :
+  evolves (PA cid (pnames n) [m]) (Qc cid) R n (fst (receive_message n cid m)).
 Proof.
   unfold receive_message. cbv zeta.
   match goal with |- context [send_message ?x cid (answer_of m (Some RC_MISSING_AVP) _)] => set (n0 := x) end.
@@ -2108,8 +2140,8 @@ Proof.
   - apply ev_recv_app_answer.
 Qed.
 
-Lemma ev_dispatch n cid m :
-  evolves (PA cid (pnames n) [m]) (Qc cid) (RA cid (pnames n) [m]) n (fst (dispatch n cid m)).
+Lemma ev_dispatch (R : nat -> Prop) n cid m :
+  evolves (PA cid (pnames n) [m]) (Qc cid) R n (fst (dispatch n cid m)).
 Proof.
   unfold dispatch. destruct (get_conn n cid) as [c|]; [|apply ev_refl].
   destruct (gate_passes c m); [apply ev_receive_message|apply ev_refl].
@@ -2117,22 +2149,20 @@ Qed.
 
 Lemma PA_weaken cid pn ms ms' j : (forall m, List.In m ms -> List.In m ms') -> PA cid pn ms j -> PA cid pn ms' j.
 Proof. intros Hsub [Hj [m [Hin Hm]]]. split; [exact Hj|]. exists m. split; [apply Hsub, Hin|exact Hm]. Qed.
-Lemma RA_weaken cid pn ms ms' j : (forall m, List.In m ms -> List.In m ms') -> RA cid pn ms j -> RA cid pn ms' j.
-Proof. intros Hsub [Hj [m [Hin Hm]]]. split; [exact Hj|]. exists m. split; [apply Hsub, Hin|exact Hm]. Qed.
 
-Lemma ev_dispatch_all ms : forall n cid,
-  evolves (PA cid (pnames n) ms) (Qc cid) (RA cid (pnames n) ms) n (fst (dispatch_all n cid ms)).
+Lemma ev_dispatch_all (R : nat -> Prop) ms : forall n cid,
+  evolves (PA cid (pnames n) ms) (Qc cid) R n (fst (dispatch_all n cid ms)).
 Proof.
   induction ms as [|m r IH]; intros n cid; [apply ev_refl|].
-  cbn [dispatch_all]. pose proof (ev_dispatch n cid m) as H1.
+  cbn [dispatch_all]. pose proof (ev_dispatch R n cid m) as H1.
   destruct (dispatch n cid m) as [n1 o1]. specialize (IH n1 cid).
   destruct (dispatch_all n1 cid r) as [n2 o2]. cbn [fst] in *.
   assert (Hpn : pnames n1 = pnames n) by apply H1. rewrite Hpn in IH.
   eapply ev_trans.
-  - eapply ev_weaken; [| | |exact H1]; [|auto|]; intros j;
-      [apply PA_weaken|apply RA_weaken]; intros x [->|[]]; left; reflexivity.
-  - eapply ev_weaken; [| | |exact IH]; [|auto|]; intros j;
-      [apply PA_weaken|apply RA_weaken]; intros x Hx; right; exact Hx.
+  - eapply ev_weaken; [| | |exact H1]; [|auto|auto]; intros j;
+      apply PA_weaken; intros x [->|[]]; left; reflexivity.
+  - eapply ev_weaken; [| | |exact IH]; [|auto|auto]; intros j;
+      apply PA_weaken; intros x Hx; right; exact Hx.
 Qed.
 
 (* ---- what one frame can do to a CONNECTED connection ---------------------------------------------- *)
@@ -2154,7 +2184,7 @@ Lemma co_recv_cer n0 cid c m host :
   m_cmd m = CE -> m_req m = true -> m_origin m = Present host ->
   conn_outcome (fst (recv_cer n0 cid m)) cid true (pnames n0) m.
 Proof.
-  intros Hc Hs Hb Hk Hr Ho. unfold recv_cer. rewrite Ho. cbn [pres_get].
+  intros Hc Hs Hb Hk Hr Ho. unfold recv_cer. rewrite Hc, Hs, Ho. cbn [cstate_eqb negb pres_get].
   destruct (get_peer n0 host) as [p|] eqn:Hp.
   - right. right. split; [exact Hk|]. split; [exact Hr|]. exists host. split; [exact Ho|].
     eapply get_peer_in, Hp.
@@ -2225,7 +2255,7 @@ Proof.
   induction ms as [|m r IH]; intros n cid c Hc Hs.
   - right. left. exists c. auto.
   - cbn [dispatch_all]. pose proof (co_dispatch n cid c m Hc Hs) as H1.
-    pose proof (ev_dispatch n cid m) as He.
+    pose proof (ev_dispatch NoP n cid m) as He.
     destruct (dispatch n cid m) as [n1 o1]. cbn [fst] in H1, He.
     assert (Hpn : pnames n1 = pnames n) by apply He.
     destruct H1 as [Hnone|[[c1 [Hc1 [Hb1 [Hs1|Hs1]]]]|Hok]].
@@ -2458,14 +2488,14 @@ Qed.
 Lemma ev_upd_last_read n cid : ev0 n (upd_last_read n cid).
 Proof. unfold upd_last_read. apply ev_upd_keep; [solve_idp|intros x; split; reflexivity]. Qed.
 
-Lemma ev_step_recv n ds cid ms :
-  evolves (PA cid (pnames n) ms) (Qc cid) (RA cid (pnames n) ms) n (fst (step n ds (ERecv cid ms))).
+Lemma ev_step_recv (R : nat -> Prop) n ds cid ms :
+  evolves (PA cid (pnames n) ms) (Qc cid) R n (fst (step n ds (ERecv cid ms))).
 Proof.
   cbn [step]. destruct (get_conn n cid); [|apply ev_refl].
   pose proof (ev_io_iteration n ds) as H1. destruct (io_iteration n ds) as [[n1 o1] ds1]. cbn [fst] in H1.
   pose proof (ev_upd_last_read n1 cid) as H2. set (n2 := upd_last_read n1 cid) in *.
   assert (H12 : ev0 n n2) by (eapply ev_trans; eassumption).
-  pose proof (ev_dispatch_all ms n2 cid) as H3. destruct (dispatch_all n2 cid ms) as [n3 o3].
+  pose proof (ev_dispatch_all R ms n2 cid) as H3. destruct (dispatch_all n2 cid ms) as [n3 o3].
   pose proof (ev_settle' n3 ds1) as H4. destruct (settle' n3 ds1) as [n4 o4]. cbn [fst] in *.
   assert (Hpn : pnames n2 = pnames n) by apply H12. rewrite Hpn in H3.
   eapply ev_trans; [apply ev0_any, H12|]. eapply ev_trans; [exact H3|apply ev0_any, H4].
@@ -2478,7 +2508,7 @@ Lemma ev_step n ds e : exists P Q R, evolves P Q R n (fst (step n ds e)).
 Proof.
   destruct e.
   - exists NoP, NoP, NoP. apply ev_step_accept.
-  - eexists _, _, _. apply ev_step_recv.
+  - eexists _, _, NoP. apply ev_step_recv.
   - exists NoP, NoP, NoP. apply ev_step_peer_close.
   - exists NoP, NoP, NoP. apply ev_step_read_err.
   - eexists _, _, _. apply ev_step_conn_done.
@@ -2533,12 +2563,6 @@ Proof.
   - destruct H as [Hr He]. split; auto.
 Qed.
 
-Lemma cer_ok_good n m : cer_ok (pnames n) m -> is_good_cer n m.
-Proof.
-  intros [Hk [Hr [h [Ho Hin]]]]. split; [exact Hk|]. split; [exact Hr|].
-  exists h. split; [exact Ho|apply in_pnames_get_peer, Hin].
-Qed.
-
 Lemma ready_not_inert s : is_ready_state s = true -> inert s = false.
 Proof. destruct s; cbn; congruence. Qed.
 
@@ -2555,21 +2579,19 @@ Proof.
   destruct (H Hr) as [H1|[]]. congruence.
 Qed.
 
-(* C06, network read: the frames contain a CER of a configured peer or a CEA 2001; if the connection was
-   neither CONNECTED nor ready, they contain a CER of a configured peer *)
+(* C06, network read: the read is on that connection, which was CONNECTED, and the frames contain a CER of a
+   configured peer or a CEA 2001 *)
 Lemma C06_ready_only_by_ce_recv n ds cid0 ms cid c c' :
   (cid < n_next_cid n)%nat -> get_conn n cid = Some c -> is_ready_state (c_state c) = false ->
   get_conn (fst (step n ds (ERecv cid0 ms))) cid = Some c' -> is_ready_state (c_state c') = true ->
-  cid0 = cid /\ (exists m, List.In m ms /\ (is_good_cer n m \/ is_good_cea m)) /\
-  (inert (c_state c) = true -> exists m, List.In m ms /\ is_good_cer n m).
+  cid0 = cid /\ c_state c = SConnected /\ (exists m, List.In m ms /\ (is_good_cer n m \/ is_good_cea m)).
 Proof.
   intros Hlt Hc Hnr Hc' Hr.
-  destruct (ev_at _ _ _ _ _ cid c c' (ev_step_recv n ds cid0 ms) Hlt Hc Hc') as [_ [H [_ H4]]].
+  destruct (ev_at _ _ _ _ _ cid c c' (ev_step_recv NoP n ds cid0 ms) Hlt Hc Hc') as [_ [H [_ H4]]].
   destruct (H Hr) as [H1|[Hj [m [Hin Hm]]]]; [congruence|]. split; [congruence|]. split.
+  - destruct (not_ready_cases _ Hnr) as [Hs|Hi]; [exact Hs|]. exfalso.
+    destruct (H4 Hi) as [Hi'|[]]. rewrite (ready_not_inert _ Hr) in Hi'. discriminate.
   - exists m. split; [exact Hin|apply ce_any_good, Hm].
-  - intros Hi. destruct (H4 Hi) as [Hi'|[_ [m' [Hin' Hm']]]].
-    + rewrite (ready_not_inert _ Hr) in Hi'. discriminate.
-    + exists m'. split; [exact Hin'|apply cer_ok_good, Hm'].
 Qed.
 
 (* C06, network read on a CONNECTED connection: the direction of the CE message matches the connection *)
@@ -2582,7 +2604,7 @@ Proof.
   pose proof (ev_io_iteration n ds) as H1. destruct (io_iteration n ds) as [[n1 o1] ds1]. cbn [fst] in H1.
   pose proof (ev_upd_last_read n1 cid) as H2. set (n2 := upd_last_read n1 cid) in *.
   assert (H12 : ev0 n n2) by (eapply ev_trans; eassumption).
-  pose proof (ev_dispatch_all ms n2 cid) as H3.
+  pose proof (ev_dispatch_all NoP ms n2 cid) as H3.
   pose proof (co_dispatch_all ms n2 cid) as Hco.
   pose proof (dispatch_all_dead ms n2 cid) as Hdead.
   destruct (dispatch_all n2 cid ms) as [n3 o3].
@@ -2606,22 +2628,19 @@ Proof.
     inversion E; subst. exact Hc2.
 Qed.
 
-(* C06: a connection that was not ready and is ready after a step: the step was a network read on that
-   connection whose frames contain a CER of a configured peer or a CEA 2001; if the connection was CONNECTED
-   the message has the direction of the connection (CER on an inbound, CEA on an outbound connection); in
-   every other state (CONNECTING, DISCONNECTING, CLOSING, CLOSED) it is a CER of a configured peer: a CEA
-   acts on a CONNECTED connection only *)
-Theorem C06_ready_only_by_ce n ds e cid c c' :
-  (cid < n_next_cid n)%nat ->
-  get_conn n cid = Some c -> is_ready_state (c_state c) = false ->
+(* C06: a connection becomes ready only from CONNECTED.  A connection that was not ready and is ready after a
+   step was CONNECTED (one that is CONNECTING, DISCONNECTING, CLOSING or CLOSED never becomes ready, whatever
+   happens), the step was a network read on that connection, and its frames contain the capabilities-exchange
+   message of the connection's direction: a CER of a configured peer on an inbound connection, a CEA 2001 on
+   an outbound one *)
+Theorem C06_ready_only_from_connected n ds e cid c c' :
+  get_conn n cid = Some c -> (cid < n_next_cid n)%nat -> is_ready_state (c_state c) = false ->
   get_conn (fst (step n ds e)) cid = Some c' -> is_ready_state (c_state c') = true ->
+  c_state c = SConnected /\
   exists ms, e = ERecv cid ms /\
-    (exists m, List.In m ms /\ (is_good_cer n m \/ is_good_cea m)) /\
-    (c_state c = SConnected ->
-     exists m, List.In m ms /\ if c_recv c then is_good_cer n m else is_good_cea m) /\
-    (c_state c <> SConnected -> exists m, List.In m ms /\ is_good_cer n m).
+    exists m, List.In m ms /\ if c_recv c then is_good_cer n m else is_good_cea m.
 Proof.
-  intros Hlt Hc Hnr Hc' Hr.
+  intros Hc Hlt Hnr Hc' Hr.
   destruct e as [h|cid0 ms|k|k hard|k ok|k b|dt|i m|i m realm pick tmo|force|tc te|];
     try (exfalso;
          match type of Hc' with get_conn (fst (step n ds ?e)) _ = _ => eapply (C06_ready_only_by_ce_other _ _ n ds e) end;
@@ -2630,32 +2649,42 @@ Proof.
                 | apply ev_step_app_answer | apply ev_step_app_request | apply ev_step_stop
                 | apply ev_step_stop_finish | apply ev_step_start]
          |exact Hlt|exact Hc|exact Hnr|exact Hc'|exact Hr]).
-  destruct (C06_ready_only_by_ce_recv n ds cid0 ms cid c c' Hlt Hc Hnr Hc' Hr) as [-> [Hm Hi]].
-  exists ms. split; [reflexivity|]. split; [exact Hm|]. split.
-  - intros Hs. eapply C06_ready_only_by_ce_recv_connected; eassumption.
-  - intros Hs. apply Hi. destruct (not_ready_cases _ Hnr); [contradiction|assumption].
+  destruct (C06_ready_only_by_ce_recv n ds cid0 ms cid c c' Hlt Hc Hnr Hc' Hr) as [-> [Hs _]].
+  split; [exact Hs|]. exists ms. split; [reflexivity|].
+  eapply C06_ready_only_by_ce_recv_connected; eassumption.
 Qed.
 
-(* C06: the direction of the capabilities exchange.  A connection becomes ready only by (a) a CEA 2001 while
-   it is CONNECTED and outbound, or (b) a CER of a configured peer (which, on a CONNECTED connection, passes
-   the gate only if the connection is inbound) *)
+(* C06: a connection that was not ready and is ready after a step: the step was a network read on that
+   connection, the connection was CONNECTED, and the frames contain a CER of a configured peer or a CEA 2001,
+   namely the one of the connection's direction (CER on an inbound, CEA on an outbound connection) *)
+Theorem C06_ready_only_by_ce n ds e cid c c' :
+  (cid < n_next_cid n)%nat ->
+  get_conn n cid = Some c -> is_ready_state (c_state c) = false ->
+  get_conn (fst (step n ds e)) cid = Some c' -> is_ready_state (c_state c') = true ->
+  exists ms, e = ERecv cid ms /\ c_state c = SConnected /\
+    (exists m, List.In m ms /\ (is_good_cer n m \/ is_good_cea m)) /\
+    (exists m, List.In m ms /\ if c_recv c then is_good_cer n m else is_good_cea m).
+Proof.
+  intros Hlt Hc Hnr Hc' Hr.
+  destruct (C06_ready_only_from_connected n ds e cid c c' Hc Hlt Hnr Hc' Hr) as [Hs [ms [He [m [Hin Hm]]]]].
+  exists ms. split; [exact He|]. split; [exact Hs|]. split; exists m; (split; [exact Hin|]); [|exact Hm].
+  destruct (c_recv c); [left|right]; exact Hm.
+Qed.
+
+(* C06: the direction of the capabilities exchange.  A connection becomes ready only while it is CONNECTED and
+   only by (a) a CEA 2001 if it is outbound, (b) a CER of a configured peer if it is inbound *)
 Theorem C06_direction n ds e cid c c' :
   (cid < n_next_cid n)%nat ->
   get_conn n cid = Some c -> is_ready_state (c_state c) = false ->
   get_conn (fst (step n ds e)) cid = Some c' -> is_ready_state (c_state c') = true ->
-  exists ms, e = ERecv cid ms /\
-    ((c_state c = SConnected /\ c_recv c = false /\ exists m, List.In m ms /\ is_good_cea m) \/
-     ((c_state c = SConnected -> c_recv c = true) /\ exists m, List.In m ms /\ is_good_cer n m)).
+  exists ms, e = ERecv cid ms /\ c_state c = SConnected /\
+    ((c_recv c = false /\ exists m, List.In m ms /\ is_good_cea m) \/
+     (c_recv c = true /\ exists m, List.In m ms /\ is_good_cer n m)).
 Proof.
   intros Hlt Hc Hnr Hc' Hr.
-  destruct (C06_ready_only_by_ce n ds e cid c c' Hlt Hc Hnr Hc' Hr) as [ms [He [_ [H1 H2]]]].
-  exists ms. split; [exact He|].
-  destruct (not_ready_cases _ Hnr) as [Hs|Hi].
-  - destruct (H1 Hs) as [m [Hin Hm]]. destruct (c_recv c) eqn:Hb.
-    + right. split; [reflexivity|]. exists m. auto.
-    + left. split; [exact Hs|]. split; [reflexivity|]. exists m. auto.
-  - assert (Hs : c_state c <> SConnected) by (intros E; rewrite E in Hi; discriminate).
-    right. split; [intros E; contradiction|]. apply H2, Hs.
+  destruct (C06_ready_only_from_connected n ds e cid c c' Hc Hlt Hnr Hc' Hr) as [Hs [ms [He [m [Hin Hm]]]]].
+  exists ms. split; [exact He|]. split; [exact Hs|].
+  destruct (c_recv c); [right|left]; (split; [reflexivity|]); exists m; auto.
 Qed.
 
 (* C06: an outbound CONNECTED connection becomes ready only by a CEA 2001 *)
@@ -2667,34 +2696,39 @@ Corollary C06_direction_outbound n ds e cid c c' :
 Proof.
   intros Hlt Hc Hs Hb Hc' Hr.
   assert (Hnr : is_ready_state (c_state c) = false) by (rewrite Hs; reflexivity).
-  destruct (C06_direction n ds e cid c c' Hlt Hc Hnr Hc' Hr) as [ms [He [[_ [_ H]]|[H _]]]].
+  destruct (C06_direction n ds e cid c c' Hlt Hc Hnr Hc' Hr) as [ms [He [_ [[_ H]|[H _]]]]].
   - exists ms. auto.
-  - specialize (H Hs). congruence.
+  - congruence.
 Qed.
 
-(* C06: a CEA never revives a connection: one that is CONNECTING, DISCONNECTING, CLOSING or CLOSED becomes
-   ready only by a CER of a configured peer; a read that holds answers only leaves it not ready *)
+(* C06: an inbound CONNECTED connection becomes ready only by a CER of a configured peer *)
+Corollary C06_direction_inbound n ds e cid c c' :
+  (cid < n_next_cid n)%nat ->
+  get_conn n cid = Some c -> c_state c = SConnected -> c_recv c = true ->
+  get_conn (fst (step n ds e)) cid = Some c' -> is_ready_state (c_state c') = true ->
+  exists ms, e = ERecv cid ms /\ exists m, List.In m ms /\ is_good_cer n m.
+Proof.
+  intros Hlt Hc Hs Hb Hc' Hr.
+  assert (Hnr : is_ready_state (c_state c) = false) by (rewrite Hs; reflexivity).
+  destruct (C06_direction n ds e cid c c' Hlt Hc Hnr Hc' Hr) as [ms [He [_ [[H _]|[_ H]]]]].
+  - congruence.
+  - exists ms. auto.
+Qed.
+
+(* C06: nothing revives a connection: one that is CONNECTING, DISCONNECTING, CLOSING or CLOSED is not ready
+   after the step, whatever the event is and whatever is received (neither a CEA nor a CER) *)
 Theorem C06_cea_never_revives n ds e cid c c' :
   (cid < n_next_cid n)%nat ->
   get_conn n cid = Some c ->
   (c_state c = SConnecting \/ c_state c = SDisconnecting \/ c_state c = SClosing \/ c_state c = SClosed) ->
   get_conn (fst (step n ds e)) cid = Some c' ->
-  (is_ready_state (c_state c') = true ->
-   exists ms, e = ERecv cid ms /\ exists m, List.In m ms /\ is_good_cer n m) /\
-  (forall ms, e = ERecv cid ms -> (forall m, List.In m ms -> m_req m = false) ->
-   is_ready_state (c_state c') = false).
+  is_ready_state (c_state c') = false.
 Proof.
   intros Hlt Hc Hst Hc'.
   assert (Hnr : is_ready_state (c_state c) = false) by (destruct Hst as [E|[E|[E|E]]]; rewrite E; reflexivity).
   assert (Hns : c_state c <> SConnected) by (destruct Hst as [E|[E|[E|E]]]; rewrite E; discriminate).
-  assert (H1 : is_ready_state (c_state c') = true ->
-               exists ms, e = ERecv cid ms /\ exists m, List.In m ms /\ is_good_cer n m).
-  { intros Hr. destruct (C06_ready_only_by_ce n ds e cid c c' Hlt Hc Hnr Hc' Hr) as [ms [He [_ [_ H]]]].
-    exists ms. split; [exact He|apply H, Hns]. }
-  split; [exact H1|]. intros ms He Hans.
   destruct (is_ready_state (c_state c')) eqn:Hr; [|reflexivity]. exfalso.
-  destruct (H1 eq_refl) as [ms' [He' [m [Hin [_ [Hq _]]]]]]. rewrite He in He'. inversion He'; subst ms'.
-  rewrite (Hans m Hin) in Hq. discriminate.
+  destruct (C06_ready_only_from_connected n ds e cid c c' Hc Hlt Hnr Hc' Hr) as [Hs _]. contradiction.
 Qed.
 
 (* ================================================================================== *)
@@ -2763,6 +2797,32 @@ Example C06_cea_example :
   snd (step k [] (ERecv 0%nat [ex_cea_q])) = [OClose 0%nat R_CER_REJECTED] /\
   get_conn (fst (step k [] (ERecv 0%nat [ex_cea_q]))) 0%nat = None.
 Proof. vm_compute. repeat split; reflexivity. Qed.
+
+(* C06: a CER acts on a CONNECTED connection only.  On a READY connection the CER of the (configured, application
+   sharing) peer passes the gate but is ignored by the handler: nothing is sent, the connection stays READY and
+   keeps its identity (no second negotiation).  On an inbound DISCONNECTING connection it is ignored as well: the
+   connection does not become ready again.  The hypothesis of C06_cer_ignored_unless_connected holds in both *)
+Example C06_cer_ignored_example :
+  let n := ex_node 0 (ex_conn true SReady "p") in
+  let d := ex_node 0 (ex_conn true SDisconnecting "p") in
+  (0 < n_next_cid n)%nat /\
+  option_map c_state (get_conn n 0%nat) = Some SReady /\
+  (exists p, get_peer n "p" = Some p) /\
+  inter_z (node_auth n) (m_auth ex_cer) = [4] /\
+  election_rivals n 0%nat "p" = [] /\
+  option_map (fun c => gate_passes c ex_cer) (get_conn n 0%nat) = Some true /\
+  recv_cer n 0%nat ex_cer = (n, []) /\
+  snd (dispatch n 0%nat ex_cer) = [] /\
+  snd (step n [] (ERecv 0%nat [ex_cer])) = [] /\
+  option_map c_state (get_conn (fst (step n [] (ERecv 0%nat [ex_cer]))) 0%nat) = Some SReady /\
+  option_map c_host (get_conn (fst (step n [] (ERecv 0%nat [ex_cer]))) 0%nat) = Some "p" /\
+  option_map c_auth (get_conn (fst (step n [] (ERecv 0%nat [ex_cer]))) 0%nat) = Some [] /\
+  option_map c_state (get_conn d 0%nat) = Some SDisconnecting /\
+  option_map (fun c => gate_passes c ex_cer) (get_conn d 0%nat) = Some true /\
+  recv_cer d 0%nat ex_cer = (d, []) /\
+  snd (step d [] (ERecv 0%nat [ex_cer])) = [] /\
+  option_map c_state (get_conn (fst (step d [] (ERecv 0%nat [ex_cer; ex_cea]))) 0%nat) = Some SDisconnecting.
+Proof. vm_compute. repeat split; try reflexivity; try lia. eexists; reflexivity. Qed.
 
 (* C06: the election.  Connection 0 was dialled towards "p" and awaits the CEA; "p" connects (connection 1)
    and sends its CER.  With the local name "n" < "p" the election is lost: 4003, connection 1 is CLOSING,
@@ -2846,15 +2906,18 @@ Print Assumptions C06_cer_known_no_rivals.
 Print Assumptions C06_cer_election_won.
 Print Assumptions C06_cer_election_lost.
 Print Assumptions C06_cer_unknown.
+Print Assumptions C06_cer_ignored_unless_connected.
 Print Assumptions C06_unknown_then_closed.
 Print Assumptions C06_cer_no_common.
 Print Assumptions C06_cer_no_common_no_rivals.
 Print Assumptions C06_ready_only_by_ce_other.
 Print Assumptions C06_ready_only_by_ce_recv.
 Print Assumptions C06_ready_only_by_ce_recv_connected.
+Print Assumptions C06_ready_only_from_connected.
 Print Assumptions C06_ready_only_by_ce.
 Print Assumptions C06_direction.
 Print Assumptions C06_direction_outbound.
+Print Assumptions C06_direction_inbound.
 Print Assumptions C06_cea_never_revives.
 Print Assumptions conns_fresh_step.
 Print Assumptions C06_outbound_first_is_cer.
@@ -2885,6 +2948,7 @@ Print Assumptions election_rivals_in.
 Print Assumptions election_rivals_nodup.
 Print Assumptions C06_example.
 Print Assumptions C06_cea_example.
+Print Assumptions C06_cer_ignored_example.
 Print Assumptions C06_election_example.
 Print Assumptions C11_example.
 Print Assumptions C18_example.
